@@ -413,6 +413,12 @@ pub fn run_profile(start: [f32; 3], end: [f32; 3], max_vel: f32, max_acc: f32, t
         let tt = Time(t);
         out.push(format!("{:?}", mp.get_piece(tt)));
         out.push(format!("{:?}", mp.get_mode(tt)));
+        // piece -> position derivative -> unit: which pieces have a unit at all must not depend on the configuration
+        out.push(match PositionDerivative::try_from(mp.get_piece(tt)) {
+            Ok(pd) => format!("pd{:?}", pd),
+            Err(()) => "pd-none".to_string(),
+        });
+        out.push(if Unit::try_from(mp.get_piece(tt)).is_ok() { "unit-some" } else { "unit-none" }.to_string());
         for q in [mp.get_acceleration(tt), mp.get_velocity(tt), mp.get_position(tt)] {
             out.push(match q {
                 Some(q) => fb(q.value),
